@@ -22,3 +22,11 @@ Definition stmt_height_monotone : Prop :=
 Definition stmt_height_exact : Prop :=
   forall progs sched, let y := runS (init progs) sched in
     sl_level (sh y) = fold_right Nat.max 0%nat (map lvl (skipn 2 (heap (sh y)))).
+
+(** marks are set top-down (softDelete) and never removed: in every reachable state the marked levels
+    of a node form an upper segment of its tower — a node that is dead at level 0 is dead on every
+    index level, so a search that steps over a node unmarked on an index level may descend inside it *)
+Definition stmt_marks_upper_segment : Prop :=
+  forall progs sched, let y := runS (init progs) sched in
+    forall n i j, marked (sh y) n i = true -> (i <= j < length (nxt (node (sh y) n)))%nat ->
+      marked (sh y) n j = true.
